@@ -34,14 +34,23 @@ def diff_keys(a, b, prefix=None):
     return ks
 
 
-CONFIGS = ['sir_mf', 'sis_static', 'sir_er_deaths', 'sir_preg', 'sis_pool', 'hiv_mf_vx', 'measles_day', 'sir_births', 'sir_random_odd', 'ncd', 'sir_random_even']
+CONFIGS = ['sir_tabdeaths', 'sis_tx2', 'sir_mf', 'sis_static', 'sir_er_deaths', 'sir_preg', 'sis_pool', 'hiv_mf_vx', 'measles_day', 'sir_births', 'sir_random_odd', 'ncd', 'sir_random_even']
 
-def make_sim(kind, seed, n=200, dur=8, extra=None):
+def make_sim(kind, seed, n=200, dur=8, extra=None, variant=0):
     """the configuration grid (extra: dict of additional module lists merged in)"""
     import starsim as ss
     kw = dict(n_agents=n, dur=dur, rand_seed=seed, verbose=0)
     ex = extra or {}
-    def L(key, base): return list(base) + list(ex.get(key, []))
+    def L(key, base): return list(ex.get(key + '_front', [])) + list(base) + list(ex.get(key, []))
+    if kind == 'sir_tabdeaths':
+        import pandas as pd
+        rows = [dict(Time=y, Sex=sx, AgeGrpStart=a, mx=(mx + (y - 1990)) * (1 + 3 * variant) + (5 if sx == 'Male' else 0)) for y in (1990, 2000, 2010, 2020) for sx in ('Female', 'Male') for a, mx in ((0, 10), (5, 3), (40, 15), (70, 120))]
+        return ss.Sim(diseases=L('diseases', [ss.SIR(beta={'mf': [0.3, 0.2]}, init_prev=0.1)]), networks=L('networks', [ss.MFNet()]), demographics=[ss.Deaths(death_rate=pd.DataFrame(rows))], analyzers=L('analyzers', []), interventions=L('interventions', []), start=2000, **kw)
+    if kind == 'sis_tx2':
+        import pandas as pd
+        df = pd.DataFrame([dict(name='x', disease='sis', state='infected', efficacy=0.7 + 0.05 * variant, post_state='susceptible'), dict(name='x', disease='sis', state='susceptible', efficacy=0.5, post_state='susceptible')])
+        trt = ss.treat_num(product=ss.Tx(df), prob=0.6, max_capacity=20, eligibility=lambda sim: sim.people.auids, name='trt')
+        return ss.Sim(diseases=L('diseases', [ss.SIS(beta=0.1, init_prev=0.3)]), networks=L('networks', [ss.StaticNet()]), interventions=L('interventions', [trt]), analyzers=L('analyzers', []), **kw)
     if kind == 'sir_mf': return ss.Sim(diseases=L('diseases', [ss.SIR(beta={'mf': [0.3, 0.2]}, init_prev=0.1)]), networks=L('networks', [ss.MFNet()]), analyzers=L('analyzers', []), interventions=L('interventions', []), **kw)
     if kind == 'sis_static': return ss.Sim(diseases=L('diseases', [ss.SIS(beta=0.1)]), networks=L('networks', [ss.StaticNet()]), analyzers=L('analyzers', []), interventions=L('interventions', []), **kw)
     if kind == 'sir_er_deaths': return ss.Sim(diseases=L('diseases', [ss.SIR(beta=0.2, p_death=0.2)]), networks=L('networks', [ss.ErdosRenyiNet()]), demographics=[ss.Deaths(death_rate=30)], analyzers=L('analyzers', []), interventions=L('interventions', []), **kw)
@@ -69,7 +78,8 @@ def make_sampler(ss, base, n_dists, name):
     class Sampler(base):
         def __init__(self, n_dists=2, **kw):
             super().__init__(**kw)
-            fams = [lambda: ss.random(), lambda: ss.normal(1, 2), lambda: ss.bernoulli(0.3), lambda: ss.poisson(3), lambda: ss.lognorm_ex(2, 1), lambda: ss.randint(0, 10), lambda: ss.expon(2.0)]
+            fams = [lambda: ss.weibull(c=1.5, scale=2.0), lambda: ss.gamma(a=2.0, scale=1.5), lambda: ss.random(), lambda: ss.normal(1, 2), lambda: ss.bernoulli(0.3), lambda: ss.poisson(3), lambda: ss.lognorm_ex(2, 1),
+                    lambda: ss.randint(0, 10), lambda: ss.expon(2.0), lambda: ss.nbinom(3, 0.4), lambda: ss.uniform(1, 3), lambda: ss.lognorm_im(0.2, 0.5), lambda: ss.constant(2)]
             for i in range(n_dists): setattr(self, f'd{i}', fams[i % len(fams)]())
             self.n_dists = n_dists
             self.seen = 0.0
